@@ -470,7 +470,7 @@ func GenScript(rng *rand.Rand, r *Run, nScopes, nOps int, closeProb int) {
 		if depth[parent] >= 3 {
 			parent = 0
 		}
-		res := r.Do(Op{Kind: OpCreate, Scope: parent, CtxKind: rng.Intn(4)})
+		res := r.Do(Op{Kind: OpCreate, Scope: parent, CtxKind: rng.Intn(6)})
 		if res.NewScope > 0 {
 			live = append(live, res.NewScope)
 			depth[res.NewScope] = depth[parent] + 1
